@@ -88,7 +88,7 @@ int main(void)
     uint64_t reps = vp_cfg_u64("REPS", 4);
     uint64_t maxlen = vp_cfg_u64("MAXLEN", 64);
     g_place = (uint32_t)vp_cfg_u64("PLACE", 0);
-    vp_ctx_init(c, seed, 0xCA0 + g_place);
+    vp_ctx_init(c, seed, 0xCA0);
     c->tdump = (int)vp_cfg_u64("DUMP", 0);
     vp_arena_t a;
     vp_arena_new(&a, ARENA_SZ);
@@ -122,6 +122,8 @@ int main(void)
                         if (placement == 0) {
                             vp_arena_fill(&a, &c->rng);
                             p = a.mem + PDU_BASE + g_place; s = a.shadow + PDU_BASE + g_place;
+                            vp_rng_fill(&c->rng, p, total + 8);     /* prior message bytes independent of the placement */
+                            memcpy(s, p, total + 8);
                         } else {
                             heap = vp_heap(total);               /* exact-extent message */
                             vp_rng_fill(&c->rng, heap, total);
